@@ -35,7 +35,10 @@ ID = "C18"
 LEVEL = "exploration"
 BUDGET = {"quick": 75, "thorough": 800}
 RULE = (
-    "case = (parser variant, substitute configuration, document text). "
+    "case = (parser variant, substitute configuration incl. the wiring of grammar "
+    "and decoder {one shared grammar instance; decoder with its own default "
+    "grammar; pvl.loads(grammar=, decoder=)}, document text). For the two mixed "
+    "wirings the reference is the same wiring with the default classes. "
     "Non-trivial = the document has a real number below the top level (in a "
     "sequence/set/block) or inside a quantity; distinct by (variant, "
     "configuration, text)."
@@ -91,20 +94,34 @@ PARSER = {"PVL": PVLParser, "ODL": ODLParser, "PDS3": ODLParser, "ISIS": PVLPars
 REAL = {"float": None, "Decimal": Decimal, "RecordingReal": RecordingReal}
 
 
-def load(d, cfg, text):
+def load(d, cfg, text, substitutes=True):
+    """wiring: 'shared'   parser and decoder share one grammar instance (default);
+               'own'      the decoder is built without a grammar (its own default one)
+                          and the parser gets an explicit grammar of dialect d;
+               'loads'    pvl.loads(text, grammar=G(), decoder=D(...)) - the parser is
+                          then the default OmniParser.
+    substitutes=False builds the same wiring with the default classes."""
     g = GRAMMAR[d]()
     deckw = {}
-    if cfg["real"] != "float" and d != "PDS3":
-        deckw["real_cls"] = REAL[cfg["real"]]
-    if cfg["quantity"]:
-        deckw["quantity_cls"] = RecordingQuantity
-    dec = DECODER[d](g, **deckw)
     pkw = {}
-    if cfg["containers"]:
-        pkw = dict(module_class=MyModule, group_class=MyGroup, object_class=MyObject)
-    if d == "default" and cfg.get("via_loads"):
-        return pvl.loads(text, decoder=dec, lexer_fn=counting_lexer(), **pkw)
-    return PARSER[d](g, dec, lexer_fn=counting_lexer(), **pkw).parse(text)
+    if substitutes:
+        if cfg["real"] != "float" and d != "PDS3":
+            deckw["real_cls"] = REAL[cfg["real"]]
+        if cfg["quantity"]:
+            deckw["quantity_cls"] = RecordingQuantity
+        if cfg["containers"]:
+            pkw = dict(module_class=MyModule, group_class=MyGroup,
+                       object_class=MyObject)
+    wiring = cfg.get("wiring", "shared")
+    if wiring == "shared":
+        dec = DECODER[d](g, **deckw)
+        if d == "default" and cfg.get("via_loads"):
+            return pvl.loads(text, decoder=dec, lexer_fn=counting_lexer(), **pkw)
+        return PARSER[d](g, dec, lexer_fn=counting_lexer(), **pkw).parse(text)
+    dec = DECODER[d](**deckw)                 # decoder with its own default grammar
+    if wiring == "own":
+        return PARSER[d](g, dec, lexer_fn=counting_lexer(), **pkw).parse(text)
+    return pvl.loads(text, grammar=g, decoder=dec, lexer_fn=counting_lexer(), **pkw)
 
 
 def walk(v, cfg, d, kind, out, path="$"):
@@ -166,6 +183,28 @@ def walk(v, cfg, d, kind, out, path="$"):
 
 def run_case(case):
     d, cfg, text = case["dialect"], case["cfg"], case["text"]
+    shared = cfg.get("wiring", "shared") == "shared"
+    expected = case["expected"]
+    if not shared:
+        # grammar and decoder of different classes: the generator's tree is not the
+        # reference any more; the same wiring with the default classes is.
+        try:
+            base = load(d, cfg, text, substitutes=False)
+        except BudgetExceeded:
+            return None
+        except Exception as e:
+            try:
+                load(d, cfg, text)
+            except BudgetExceeded:
+                return None
+            except Exception:
+                return None              # both fail: nothing changed
+            return (f"C18/{d}/only-default-classes-fail",
+                    f"cfg={cfg}: fails with the default classes ({e!r:.100}) but "
+                    f"loads with substitutes; text={text!r}")
+        base_cfg = dict(cfg, real="float", quantity=False, containers=False)
+        expected = walk(base, base_cfg, d, "mod",
+                        dict(problems=[], texts=[], decimals=[]))
     try:
         m = load(d, cfg, text)
     except BudgetExceeded:
@@ -178,12 +217,14 @@ def run_case(case):
     if out["problems"]:
         rule, msg = out["problems"][0]
         return (f"C18/{d}/{rule}", f"cfg={cfg}: {msg}; text={text!r}")
-    dd = nm.diff(case["expected"], got)
+    dd = nm.diff(expected, got)
     if dd is not None:
         return (f"C18/{d}/result-differs-from-default",
                 f"cfg={cfg}: at {dd[0]} expected {dd[1]!r} got {dd[2]!r}; "
                 f"text={text!r}")
     realcls = cfg["real"] if d != "PDS3" else "float"
+    if not shared and count_reals(expected) != len(case["numerals"]):
+        return None          # this wiring reads some numerals differently anyway
     if realcls == "RecordingReal":
         if Counter(out["texts"]) != Counter(case["numerals"]):
             return (f"C18/{d}/real-text-altered",
@@ -217,7 +258,8 @@ def cases(draw, d):
     cfg = dict(real=draw(st.sampled_from(["float", "Decimal", "RecordingReal",
                                            "RecordingReal"])),
                quantity=draw(st.booleans()), containers=draw(st.booleans()),
-               via_loads=draw(st.booleans()))
+               via_loads=draw(st.booleans()),
+               wiring=draw(st.sampled_from(["shared", "shared", "own", "loads"])))
     return dict(dialect=d, cfg=cfg, text=text, expected=doc["expected"],
                 numerals=numerals(doc), feats=c03.features(doc),
                 nreal_nested=count_nested_reals(doc["expected"]))
@@ -263,6 +305,11 @@ def random_cases(acc, d, n, seed):
             return
         if set_lost_reals(case):
             acc.event("skipped:set-deduplicated-a-real")
+            return
+        if any(float(t) in (float("inf"), float("-inf")) or
+               (float(t) == 0 and Decimal(t) != 0) for t in case["numerals"]):
+            # a numeral that over/underflows float: Decimal legitimately differs
+            acc.event("skipped:numeral-outside-float-range")
             return
         r = run_case(case)
         nt = case["nreal_nested"] > 0
